@@ -173,7 +173,8 @@ def render(doc, fmt) -> bytes:
         if fmt == "mhtml":
             return web.write_mhtml(doc)
         if fmt == "epub":
-            return web.write_epub({"chapters": [doc], "props": doc.get("props")})
+            depth = ("OEBPS", "", "EPUB/package")[len(doc.get("blocks") or []) % 3]
+            return web.write_epub({"chapters": [doc], "props": doc.get("props")}, opf_dir=depth)
         if fmt == "rtf":
             return misc.write_rtf(doc)
     if k == "deck":
@@ -186,8 +187,10 @@ def render(doc, fmt) -> bytes:
         if fmt == "rtf":
             return misc.write_rtf({"pages": [[["p", [["r", i] for i in ln]] for ln in pg] for pg in doc["pages"]]})
         if fmt == "epub":
+            # the package file sits at the root, one or two directories deep (chosen by the document's shape)
+            depth = ("", "OEBPS", "EPUB/package")[sum(len(pg) for pg in doc["pages"]) % 3]
             return web.write_epub({"chapters": [{"blocks": [["p", [["r", i] for i in ln]] for ln in pg]}
-                                                for pg in doc["pages"]], "props": doc.get("props")})
+                                                for pg in doc["pages"]], "props": doc.get("props")}, opf_dir=depth)
         return misc.write_plain([ln for pg in doc["pages"] for ln in pg], fmt)
     raise ValueError((k, fmt))
 
